@@ -5,6 +5,7 @@ package main
 import (
 	"fmt"
 	"go/ast"
+	"go/constant"
 	"go/token"
 	"go/types"
 	"strings"
@@ -486,5 +487,231 @@ func c06OptionsFullPath(c *Ctx) {
 			c.Ob(rule, fmt.Sprintf("%s#%d", fr.Decl.Name.Name, k), r.Pos(), okFull, true, "the transition into `options` associates its whole SourcePath parameter: %v (%s)", okFull, exprString(r.Results[1]))
 			return true
 		})
+	}
+}
+
+// c07ScopedFlagRestored (FLAG-RESTORED): the formatter carries mode flags (bool fields of the formatter struct) that
+// change how later nodes are written. A method that both raises and lowers such a flag uses it as a *scope*: the flag
+// must be lowered again on every way out - by a deferred reset that dominates nothing but the raise, or by a reset
+// that every path from the raise to an exit passes. A `return` between raise and reset leaves the formatter in the
+// wrong mode for the rest of the file (comments of the next option name are then skipped).
+func c07ScopedFlagRestored(c *Ctx) {
+	const rule = "FLAG-RESTORED"
+	c.Rule(rule, "a formatter mode flag raised in a method is lowered again on every exit of that method", 1)
+	p := c.P
+	pk := p.Pkg("private/buf/bufformat")
+	if pk == nil {
+		c.Fail(rule, "anchor", token.NoPos, "bufformat not found")
+		return
+	}
+	info := pk.TypesInfo
+	n := 0
+	for _, fr := range p.FuncsOf(pk) {
+		if fr.Decl.Body == nil || fr.Decl.Recv == nil {
+			continue
+		}
+		type site struct {
+			node ast.Node
+			val  bool
+		}
+		stores := map[types.Object][]site{}
+		deferred := map[types.Object]bool{}
+		var walk func(n ast.Node, inDefer bool)
+		walk = func(root ast.Node, inDefer bool) {
+			ast.Inspect(root, func(m ast.Node) bool {
+				switch x := m.(type) {
+				case *ast.DeferStmt:
+					if root != ast.Node(x) {
+						walk(x, true)
+						return false
+					}
+				case *ast.FuncLit:
+					if !inDefer {
+						return false
+					}
+				case *ast.AssignStmt:
+					if len(x.Lhs) != 1 || len(x.Rhs) != 1 {
+						return true
+					}
+					sel, ok := ast.Unparen(x.Lhs[0]).(*ast.SelectorExpr)
+					if !ok {
+						return true
+					}
+					fld, ok := info.Uses[sel.Sel].(*types.Var)
+					if !ok || !fld.IsField() {
+						return true
+					}
+					tv, ok := info.Types[x.Rhs[0]]
+					if !ok || tv.Value == nil {
+						return true
+					}
+					if b, ok := fld.Type().Underlying().(*types.Basic); !ok || b.Kind() != types.Bool {
+						return true
+					}
+					val := tv.Value.ExactString() == "true"
+					if inDefer {
+						if !val {
+							deferred[fld] = true
+						}
+						return true
+					}
+					stores[fld] = append(stores[fld], site{x, val})
+				}
+				return true
+			})
+		}
+		walk(fr.Decl.Body, false)
+		g := p.CFGOf(fr.Decl.Body, info)
+		for fld, ss := range stores {
+			var raises, lowers []ast.Node
+			for _, s := range ss {
+				if s.val {
+					raises = append(raises, s.node)
+				} else {
+					lowers = append(lowers, s.node)
+				}
+			}
+			if len(raises) == 0 || (len(lowers) == 0 && !deferred[fld]) {
+				continue // not a scoped use in this method
+			}
+			n++
+			ok := true
+			why := "a deferred reset"
+			if !deferred[fld] {
+				why = "every path from the raise to an exit passes a reset"
+				for _, r := range raises {
+					if reach, _ := g.ExitReachableAvoiding(r, lowers, nil); reach {
+						ok = false
+					}
+				}
+			}
+			c.Ob(rule, declName(fr.Decl)+"/"+fld.Name(), raises[0].Pos(), ok, true, "flag %s is raised here and lowered again on every exit (%s): %v", fld.Name(), why, ok)
+		}
+	}
+	if n == 0 {
+		c.Fail(rule, "anchor", token.NoPos, "no scoped mode flag found in the formatter")
+	}
+}
+
+// c07CompactOnlyScalars (COMPACT-ONLY-SCALARS): the one-line form of a message literal prints its field names through
+// the writer for option names, which knows nothing of the `[type.googleapis.com/pkg.Msg]` spelling of an Any
+// expansion (that is the reviewed exemption of WRITER-COVERAGE). The exemption is sound only while the predicate that
+// sends a literal down the multi-line path answers true for EVERY element whose value is a message or array literal -
+// an Any expansion always has a message value. Decided on SSA: in the predicate over a *MessageLiteralNode, the
+// successful type test for a message / array literal value leads straight to `return true`.
+func c07CompactOnlyScalars(c *Ctx) {
+	const rule = "COMPACT-ONLY-SCALARS"
+	c.Rule(rule, "a message literal holding a nested message or array value is never written in the one-line form", 2)
+	p := c.P
+	pk := p.Pkg("private/buf/bufformat")
+	if pk == nil {
+		c.Fail(rule, "anchor", token.NoPos, "bufformat not found")
+		return
+	}
+	n := 0
+	for _, sf := range p.SSAFuncsOf([]*packages.Package{pk}) {
+		sig := sf.Signature
+		if sf.Parent() != nil || sig.Recv() != nil || sig.Params().Len() != 1 || sig.Results().Len() != 1 {
+			continue
+		}
+		if pt, ok := sig.Params().At(0).Type().(*types.Pointer); !ok || namedName(pt.Elem()) != "MessageLiteralNode" {
+			continue
+		}
+		if b, ok := sig.Results().At(0).Type().Underlying().(*types.Basic); !ok || b.Kind() != types.Bool {
+			continue
+		}
+		for _, b := range sf.Blocks {
+			for _, ins := range b.Instrs {
+				ta, ok := ins.(*ssa.TypeAssert)
+				if !ok || !ta.CommaOk {
+					continue
+				}
+				pt, ok := ta.AssertedType.(*types.Pointer)
+				if !ok {
+					continue
+				}
+				tn := namedName(pt.Elem())
+				if tn != "MessageLiteralNode" && tn != "ArrayLiteralNode" {
+					continue
+				}
+				i := ifOf(b)
+				if i == nil {
+					continue
+				}
+				n++
+				succ := b.Succs[0]
+				direct := false
+				if len(succ.Instrs) > 0 {
+					if r, ok := succ.Instrs[len(succ.Instrs)-1].(*ssa.Return); ok && len(succ.Instrs) == 1 && len(r.Results) == 1 {
+						if k, ok := r.Results[0].(*ssa.Const); ok && k.Value != nil && k.Value.ExactString() == "true" {
+							direct = true
+						}
+					}
+				}
+				c.Ob(rule, sf.Name()+"/"+tn, ta.Pos(), direct, true, "a %s value answers `true` unconditionally: %v", tn, direct)
+			}
+		}
+	}
+	if n == 0 {
+		c.Fail(rule, "anchor", token.NoPos, "no predicate over *MessageLiteralNode testing for nested message/array values found")
+	}
+}
+
+// ruleOpenTruncates (OPEN-TRUNCATES; C07 and C15): a file that is rewritten as a whole through os.OpenFile for writing
+// must be opened with O_TRUNC (or O_APPEND / O_EXCL, which have their own meaning): without it, writing content that
+// is shorter than the file leaves the old tail behind it - `buf format -w` on a file that shrinks produces text that
+// no longer parses, and nothing reports an error. Flags are constant-folded by go/types.
+func ruleOpenTruncates(c *Ctx, rule string) {
+	c.Rule(rule, "files opened for (over)writing are truncated", 2)
+	p := c.P
+	n := 0
+	for _, pk := range p.ModulePkgs() {
+		for _, f := range pk.Syntax {
+			if strings.HasSuffix(p.Fset.Position(f.Pos()).Filename, "_test.go") {
+				continue
+			}
+			ast.Inspect(f, func(m ast.Node) bool {
+				call, ok := m.(*ast.CallExpr)
+				if !ok || len(call.Args) != 3 || !calleeIs(Callee(pk.TypesInfo, call), "os", "OpenFile") {
+					return true
+				}
+				tv, ok := pk.TypesInfo.Types[call.Args[1]]
+				if !ok || tv.Value == nil {
+					n++
+					c.Ob(rule, relPkg(pk.PkgPath)+"/OpenFile#"+fmt.Sprint(n), call.Pos(), false, true, "the open flags are not a constant expression: undecided")
+					return true
+				}
+				flags, _ := constant.Int64Val(constant.ToInt(tv.Value))
+				osConst := func(name string) int64 {
+					if osPkg := p.ByPath["os"]; osPkg != nil {
+						if k, ok := osPkg.Types.Scope().Lookup(name).(*types.Const); ok {
+							v, _ := constant.Int64Val(constant.ToInt(k.Val()))
+							return v
+						}
+					}
+					return 0
+				}
+				oWRONLY, oRDWR, oAPPEND, oEXCL, oTRUNC := osConst("O_WRONLY"), osConst("O_RDWR"), osConst("O_APPEND"), osConst("O_EXCL"), osConst("O_TRUNC")
+				if oTRUNC == 0 {
+					n++
+					c.Ob(rule, "os-constants", call.Pos(), false, true, "package os constants not available: undecided")
+					return true
+				}
+				if flags&(oWRONLY|oRDWR) == 0 {
+					return true
+				}
+				n++
+				ok2 := flags&(oTRUNC|oAPPEND|oEXCL) != 0
+				name := "?"
+				if fd := p.EnclosingFuncDecl(call); fd != nil {
+					name = declName(fd)
+				}
+				c.Ob(rule, relPkg(pk.PkgPath)+"."+name, call.Pos(), ok2, true, "os.OpenFile(…, %s, …) for writing carries O_TRUNC / O_APPEND / O_EXCL: %v", exprString(call.Args[1]), ok2)
+				return true
+			})
+		}
+	}
+	if n == 0 {
+		c.Fail(rule, "anchor", token.NoPos, "no os.OpenFile for writing found in the module")
 	}
 }
